@@ -132,6 +132,10 @@ def file_text(rng, f):
     body = []
     for flag, bit, label in f['rows']:
         desc = ' '.join(rng.choice(['sky', 'fiber', 'bad', 'target', 'QSO', 'x', '(any)', 'r-band']) for _ in range(rng.randrange(4)))
+        if rng.random() < 0.08:
+            # hand-edited files leave the trailing description out altogether; the label is still defined
+            body.append('maskbits %s %d %s\n' % (flag, bit, label))
+            continue
         body.append('maskbits %s %s%d %s "%s"\n' % (flag, ' ' * rng.randrange(3), bit, label + ' ' * rng.randrange(4), desc))
     al = [('maskalias %s %s\n' % (a, t)) if af else ('maskalias %s %s "%s is a synonym for %s."\n' % (t, a, a, t)) for a, t in f['aliases']]
     # aliases keep their relative order, but may sit anywhere between the rows
